@@ -173,6 +173,11 @@ func (c *canon) expr(e ast.Expr) string {
 		}
 		return c.fail(x, "identifier %s is neither a parameter, a local defined in a form the extractor understands, a builtin nor a package-level name", x.Name)
 	case *ast.BasicLit:
+		if x.Kind == token.INT { // 0644, 0o644 and 420 are the same number
+			if v, err := strconv.ParseInt(x.Value, 0, 64); err == nil {
+				return strconv.FormatInt(v, 10)
+			}
+		}
 		return x.Value
 	case *ast.ParenExpr:
 		return "(" + c.expr(x.X) + ")"
@@ -194,6 +199,21 @@ func (c *canon) expr(e ast.Expr) string {
 	case *ast.StarExpr:
 		return "*" + c.expr(x.X)
 	case *ast.BinaryExpr:
+		if x.Op == token.OR { // a|b|c on integers: commutative and associative, printed sorted
+			var ops []string
+			var flat func(e ast.Expr)
+			flat = func(e ast.Expr) {
+				if b, ok := e.(*ast.BinaryExpr); ok && b.Op == token.OR {
+					flat(b.X)
+					flat(b.Y)
+					return
+				}
+				ops = append(ops, c.expr(e))
+			}
+			flat(x)
+			sort.Strings(ops)
+			return strings.Join(ops, "|")
+		}
 		return c.expr(x.X) + x.Op.String() + c.expr(x.Y)
 	case *ast.TypeAssertExpr:
 		if x.Type == nil {
@@ -896,11 +916,11 @@ func tables2Xform(repo string, o *tOut) error {
 				return "", fmt.Errorf("field %s set twice", fs[i][0])
 			}
 		}
-		if _, dup := fields[op]; dup {
-			return "", fmt.Errorf("two cases build the operation %q: the field table is keyed by operation", op)
+		var enc []string
+		for _, f := range fs {
+			enc = append(enc, f[0]+"\x01"+f[1])
 		}
-		fields[op] = fs
-		return op, nil
+		return op + "\x00" + strings.Join(enc, "\x02"), nil
 	}
 	rows, dflt, hasDefault, err := p.switchTable(sw, key, classify)
 	if err != nil {
@@ -908,6 +928,21 @@ func tables2Xform(repo string, o *tOut) error {
 	}
 	if !hasDefault {
 		return fmt.Errorf("%s: DiffMod2PatchOp: switch has no default clause", p.pos(sw))
+	}
+	if strings.Contains(dflt, "\x00") {
+		return fmt.Errorf("%s: DiffMod2PatchOp: the default clause builds an operation object (the model returns none)", p.pos(sw))
+	}
+	for i := range rows { // split `op \x00 fields` again; the field table is keyed by the modification type
+		parts := strings.SplitN(rows[i].target, "\x00", 2)
+		rows[i].target = parts[0]
+		if len(parts) == 2 {
+			var fs [][2]string
+			for _, f := range strings.Split(parts[1], "\x02") {
+				kv := strings.SplitN(f, "\x01", 2)
+				fs = append(fs, [2]string{kv[0], kv[1]})
+			}
+			fields[rows[i].key] = fs
+		}
 	}
 	fmt.Fprintf(&o.sb, "/-! ## 2. xform — %s (DiffMod2PatchOp), switch at %s -/\n\n", p.pos(fd), p.pos(sw))
 	o.rows("mod2opTable", "xform.DiffMod2PatchOp(mod = arg0): `switch mod.Type` — modification type constant, its value, the VALUE of the patch operation constant put into OpObj.Op (`nil` = no operation object)", rows)
@@ -925,7 +960,7 @@ func tables2Xform(repo string, o *tOut) error {
 			continue
 		}
 		var parts []string
-		for _, f := range fields[r.target] {
+		for _, f := range fields[r.key] {
 			parts = append(parts, "("+leanStr(f[0])+", "+leanStr(f[1])+")")
 		}
 		fmt.Fprintf(&o.sb, "  (%s, [%s])%s\n", leanStr(r.key), strings.Join(parts, ", "), sepOf(i, n))
